@@ -26,6 +26,16 @@ def sig_pos(a, b=2, c="c"):
     return [a, b, c]
 
 
+def sig_alldef(a=1, b="x", *, c=None):
+    """every parameter has a default: the call may be written with no argument at all"""
+    RECEIVED.append({"a": a, "b": b, "c": c})
+    return [a, b, c]
+
+
+def sig_noargs():
+    return "no-args"
+
+
 def sig_kwonly(a, *, k=1, m=None):
     RECEIVED.append({"a": a, "k": k, "m": m})
     return {"a": a, "k": k, "m": m}
